@@ -109,8 +109,75 @@ def _reset_gate_reset_cases():
                             "always_oracle": True})
 
 
+def _obs_order_cases():
+    """first clause, "whatever the observables are": the dictionary of sub-observables is handed to generate_cutting_experiments with its keys
+    in ANOTHER ORDER than the dictionary of subcircuits (rebuilt / filtered / sorted by the caller: the two are matched by partition label,
+    not by position).  No-re-use problems from wire-cut markers and from Moves onto fresh wires whose partitions have EQUAL widths, so that a
+    sub-observable of one partition is well-formed for another one; observables incl. the identity on a whole partition."""
+    def g(name, qs, *params):
+        return {"name": name, "qubits": list(qs), **({"params": list(params)} if params else {})}
+    cw = lambda q: {"name": "cut_wire", "qubits": [q]}   # noqa: E731
+    mv = lambda a, b: {"name": "move", "qubits": [a, b]}   # noqa: E731
+    fam = [
+        # 3 qubits, one marker in the middle wire: partitions {0,1} and {1',2}
+        ("markers", 3, [g("ry", [0], 0.9), g("cx", [0, 1]), g("ry", [1], 0.7), cw(1), g("cx", [1, 2]), g("rx", [2], 0.3), g("rz", [1], 0.4),
+                        g("ry", [1], 0.5)], ["ZZZ", "XZI", "ZIX", "IIZ", "IXI"], True, None, "reversed"),
+        # the same, explicit labels, observables that are the identity on the upstream partition (placeholder measurement there)
+        ("markers", 3, [g("ry", [0], 0.9), g("cx", [0, 1]), g("ry", [1], 0.7), cw(1), g("cx", [1, 2]), g("rx", [2], 0.3), g("ry", [1], 0.5)],
+         ["IZZ", "IXI", "IZX"], False, None, "reversed"),
+        # 4 qubits, two markers: three partitions of width 2, keys rotated
+        ("markers", 4, [g("h", [0]), g("cx", [0, 1]), cw(1), g("ry", [1], 0.6), g("cx", [1, 2]), cw(2), g("rx", [2], 0.8), g("cx", [2, 3]),
+                        g("ry", [3], 0.3)], ["ZZZZ", "IZXI", "XIIZ", "IIZI"], True, None, "rotated"),
+        # one qubit, one marker: two partitions of width 1; finite budget
+        ("markers", 1, [g("ry", [0], 1.1), cw(0), g("rx", [0], 0.4)], ["Z", "X"], True, 30, "reversed"),
+        # two qubits, a marker on each wire between two cx: partitions {0,1} and {0',1'}; keys sorted in descending order
+        ("markers", 2, [g("ry", [0], 0.7), g("cx", [0, 1]), cw(0), cw(1), g("ry", [0], 0.4), g("cx", [1, 0])], ["ZZ", "XI", "IY"], True, None, "sorted_desc"),
+        # hand-placed Move onto a fresh wire: partitions {0,1} and {2,3}
+        ("fresh_moves", 4, [g("ry", [0], 0.8), g("cx", [0, 1]), g("ry", [1], 0.5), mv(1, 2), g("ry", [2], 0.4), g("cx", [2, 3]), g("rx", [3], 0.2)],
+         ["ZIZZ", "XIIZ", "ZIXI", "IIIZ"], True, None, "reversed"),
+    ]
+    for k, (kind, nq, instrs, obs, auto, n_, order) in enumerate(fam):
+        yield ("workflow", {"kind": kind, "nq": nq, "qregs": [nq], "instrs": instrs, "obs": [{"l": l, "p": 0} for l in obs], "auto": auto,
+                            "N": n_, "seed": 191900 + k, "single": False, "obs_order": order, "always_oracle": True})
+
+
+def _third_operand_cases():
+    """second clause, re-use workflows with gates on three or more qubits (allowed inside a partition): before a wire is vacated by a Move it is
+    touched ONLY as the third (or a later) operand of such gates - ccx / rccx target, last qubit of ccz / cswap / c3x -, then it is entangled
+    with the rest; a later Move writes back onto it.  The reset of that wire is not a reset of |0>: it must stay (exactly one of it) and the
+    reconstructed values must be those of the uncut circuit."""
+    def g(name, qs, *params):
+        return {"name": name, "qubits": list(qs), **({"params": list(params)} if params else {})}
+    mv = lambda a, b: {"name": "move", "qubits": [a, b]}   # noqa: E731
+    fam = [
+        # wire 2 is the ccx target only; Move(2->3), work on 3, Move(3->2), more work on 2
+        (4, [g("ry", [0], 0.8), g("ry", [1], 1.9), g("ccx", [0, 1, 2]), g("ry", [0], 0.5), mv(2, 3), g("ry", [3], 0.4), mv(3, 2), g("cx", [2, 0]),
+             g("ry", [2], 0.7), g("cx", [1, 2])], ["ZIII", "IIZI", "ZZZI", "XIZI", "IZZI"], True, False, None),
+        # the demo shape on 5 wires: wire 4 takes part while the state is parked on wire 3; explicit labels
+        (5, [g("ry", [0], 0.8), g("ry", [1], 1.9), g("ccx", [0, 1, 2]), g("ry", [0], 0.5), mv(2, 3), g("ry", [3], 0.4), g("cx", [3, 4]),
+             g("ry", [3], 0.3), mv(3, 2), g("cx", [2, 0]), g("ry", [2], 0.7), g("cx", [1, 2])],
+         ["IIZII", "ZIIIZ", "IIIIZ", "XZXII", "ZIZIZ", "IZZII"], False, False, None),
+        # cswap with the wire as last operand (and ccz, diagonal, before it); unseparated call form
+        (4, [g("ry", [0], 1.2), g("ry", [1], 0.9), g("ccz", [0, 1, 2]), g("cswap", [0, 1, 2]), g("h", [0]), mv(2, 3), g("rx", [3], 0.6), mv(3, 2),
+             g("cx", [2, 1]), g("ry", [2], 0.4)], ["ZIII", "IXXI", "ZIZI", "XYYI", "IIZI"], True, True, None),
+        # rccx twice, then the wire is vacated and written back by a different wire's Move chain: Move(2->3), Move(3->2) with a finite budget
+        (4, [g("h", [0]), g("ry", [1], 0.7), g("rccx", [0, 1, 2]), g("ry", [1], 0.5), g("rccx", [1, 0, 2]), mv(2, 3), g("ry", [3], 0.9), mv(3, 2),
+             g("cz", [0, 2]), g("ry", [2], 0.3)], ["IIZI", "ZYXI", "IYZI", "XXYI"], True, False, 60),
+        # fourth operand of c3x
+        (5, [g("ry", [0], 2.0), g("ry", [1], 2.3), g("ry", [2], 1.8), g("c3x", [0, 1, 2, 3]), g("ry", [0], 0.4), mv(3, 4), g("ry", [4], 0.5), mv(4, 3),
+             g("cx", [3, 0]), g("ry", [3], 0.6)], ["IIIZI", "ZIIZI", "XIIXI", "IZZII"], True, False, None),
+    ]
+    for k, (nq, instrs, cut_ids, obs, auto, single, n_) in enumerate(
+            (nq, instrs, [], obs, auto, single, n_) for nq, instrs, obs, auto, single, n_ in fam):
+        yield ("workflow", {"kind": "reuse_chain", "nq": nq, "qregs": [nq], "instrs": instrs, "cut_ids": cut_ids,
+                            "obs": [{"l": l, "p": 0} for l in obs], "auto": auto, "N": n_, "seed": 192000 + k, "single": single,
+                            "always_oracle": True})
+
+
 def cases(rng, tier):
     N = 50 if tier == "quick" else 600
+    yield from _obs_order_cases()
+    yield from _third_operand_cases()
     yield from _gate_cut_reset_cases()
     yield from _reset_gate_reset_cases()
     for two in ("cz", "cy", "ch"):
@@ -250,6 +317,8 @@ def _pipeline(payload):
         labels = _partition_labels_from_circuit(qc1, ignore=lambda inst: isinstance(inst.operation, TwoQubitQPDGate))
         labels = [None if l is None else f"p{l}" for l in labels]
     pp = partition_problem(qc1, labels, obs1)
+    if payload.get("obs_order"):
+        pp = _Reordered(pp, payload["obs_order"])
     return qc0, obs0, qc1, obs1, pp
 
 
@@ -281,6 +350,24 @@ def _run(payload):
         pp = _Single(qc1, obs1)
         exps = {"A": exps}
     return qc0, obs0, pp, exps, coeffs, captured
+
+
+class _Reordered:
+    """the same partitioned problem; the dictionary of sub-observables lists its keys in another order than the dictionary of subcircuits"""
+
+    def __init__(self, pp, how):
+        self.subcircuits = dict(pp.subcircuits)
+        items = list(pp.subobservables.items())
+        if how == "reversed":
+            items = items[::-1]
+        elif how == "rotated":
+            items = items[1:] + items[:1]
+        elif how == "sorted_desc":
+            items = sorted(items, key=lambda kv: str(kv[0]), reverse=True)
+        else:
+            raise AssertionError(how)
+        self.subobservables = dict(items)
+        self.bases = pp.bases
 
 
 class _Single:
